@@ -294,6 +294,15 @@ def w_str2array(ctx, rng, i):
         bad = str(rng.choice(list("abcdefghklmnopqrstuvwxyzABCXYZ_#/*()[]{}=:!?%&'\"@$^~<>|\\")))
         pos = int(rng.integers(0, len(text) + 1))
         ctx.raises("str2array.invalid_char", ValueError, U.str2array, text[:pos] + bad + text[pos:])
+        # ... including characters that python's own int() / float() would read as digits or signs: non-ASCII decimal digits
+        # (Arabic-Indic, Devanagari, full-width), superscripts, the Unicode minus, the decimal comma of another locale is a separator
+        odd = str(rng.choice(list("٠١٢٣٤٥٦٧٨٩०१२३０１２３²³¹⁰−＋．٫π∞½")))
+        if kind != "bits":
+            pos2 = int(rng.integers(0, len(text) + 1))
+            ctx.raises("str2array.invalid_char", ValueError, U.str2array, text[:pos2] + odd + text[pos2:])
+            ctx.raises("str2array.invalid_char", ValueError, U.str2array, odd + " " + text)
+        for dt in (None, int, float, complex):
+            ctx.raises("str2array.invalid_char", ValueError, U.str2array, "٣ ١٢" if rng.integers(2) else "１２ ３", **({} if dt is None else {"dtype": dt}))
     ctx.case(("str2array", kind, shape, sep, rsep, dec, unit), sample={"text": text, "parsed": want} if i < 8 else None)
     ctx.bin("str2array.kind", kind + ("2d" if two_d else "1d"))
 
